@@ -808,3 +808,284 @@ Proof.
     rewrite !bytes_eqb_refl, IH. reflexivity. }
   rewrite E. reflexivity.
 Qed.
+
+(* ---------------------------------------------------------------------------------------- *)
+(* msgio reads exactly: ReadLen does io.ReadFull on the 4-byte buffer, ReadMsg does io.ReadFull
+   on a buffer of exactly the announced length, and the reader constructor puts no buffered
+   reader under them.  This is the "no read-ahead" fact the two-reader theorem below needs; here
+   it is pinned to the msgio source the repository builds against. *)
+Lemma wiring_exact_reads :
+  c13_msgio_nextlen_readlen = [[bos "s.R"; bos "s.lbuf[:]"]] /\
+  c13_msgio_readlen_readfull = [[bos "r"; bos "buf"]] /\
+  c13_msgio_readmsg_readfull = [[bos "s.R"; bos "msg"]] /\
+  c13_msgio_reader_bufio = false /\ c13_msgio_reader_bufio_size = false.
+Proof. repeat split; reflexivity. Qed.
+
+(* ---------------------------------------------------------------------------------------- *)
+(* Header maps at the level of the map framing (values opaque)                                *)
+Definition hentry_field (e : hentry) : field := (1, WLen (enc_hentry e)).
+
+Lemma decode_hentry_enc e :
+  utf8_valid (fst e) = true -> len_of (enc_hentry e) < two64 -> decode_hentry (enc_hentry e) = TOk e.
+Proof.
+  destruct e as [k v]. cbn [fst snd]. intros Hu Hl. unfold decode_hentry, parse_fields, enc_hentry. cbn [fst snd].
+  assert (W : Forall wf_field [(1, WLen k); (2, WLen v)]).
+  { apply Forall_forall. intros f Hin.
+    assert (Hf : len_of (enc_field f) < two64).
+    { eapply N.le_lt_trans; [apply (enc_fields_in_len f _ Hin)|exact Hl]. }
+    destruct Hin as [<-|[<-|[]]]; (apply wf_len_field; [lia|unfold max_field_num; lia|]);
+      (eapply N.le_lt_trans; [apply enc_len_field_len|exact Hf]). }
+  rewrite dec_fields_enc by exact W. cbn [tbind tfold entry_apply fst snd]. rewrite Hu. reflexivity.
+Qed.
+
+Lemma hset_fresh k v h : ~ In k (map fst h) -> hset k v h = h ++ [(k, v)].
+Proof.
+  induction h as [|[k' v'] h IH]; intros Hn; [reflexivity|]. cbn [hset app map fst In] in *.
+  destruct (bytes_eqb k k') eqn:E.
+  - apply bytes_eqb_eq in E. subst. exfalso. apply Hn. left. reflexivity.
+  - rewrite IH; [reflexivity|]. intros Hin. apply Hn. right. exact Hin.
+Qed.
+
+Definition hentry_ok (e : hentry) : Prop := utf8_valid (fst e) = true /\ len_of (enc_hentry e) < two64.
+
+Lemma tfold_header es : forall acc,
+  Forall hentry_ok es -> NoDup (map fst (acc ++ es)) ->
+  tfold header_apply (map hentry_field es) acc = TOk (acc ++ es).
+Proof.
+  induction es as [|e es IH]; intros acc W ND; cbn [map tfold].
+  - rewrite app_nil_r. reflexivity.
+  - inversion W as [|? ? [Hu Hl] Wr]; subst. unfold hentry_field at 1. cbn [header_apply].
+    rewrite decode_hentry_enc by assumption. cbn [tbind].
+    rewrite hset_fresh.
+    + destruct e as [k v]. cbn [fst snd]. rewrite IH; [rewrite <- app_assoc; reflexivity|exact Wr|].
+      rewrite <- app_assoc. exact ND.
+    + rewrite map_app in ND. cbn [map] in ND. apply NoDup_remove_2 in ND.
+      intros Hin. apply ND. apply in_or_app. left. exact Hin.
+Qed.
+
+Lemma header_entries_ok h :
+  Forall (fun e => utf8_valid (fst e) = true) h -> len_of (enc_header h) < two64 ->
+  Forall hentry_ok h /\ Forall wf_field (map hentry_field h).
+Proof.
+  intros Hu Hl.
+  assert (Hbound : forall e, In e h -> len_of (enc_hentry e) < two64).
+  { intros e Hin. eapply N.le_lt_trans; [apply (enc_len_field_len 1)|].
+    eapply N.le_lt_trans; [|exact Hl]. apply (enc_fields_in_len (hentry_field e)).
+    apply in_map. exact Hin. }
+  split.
+  - apply Forall_forall. intros e Hin. split; [|apply Hbound; exact Hin].
+    rewrite Forall_forall in Hu. apply Hu. exact Hin.
+  - apply Forall_forall. intros f Hin. apply in_map_iff in Hin. destruct Hin as (e & <- & Hin).
+    apply wf_len_field; [lia|unfold max_field_num; lia|apply Hbound; exact Hin].
+Qed.
+
+(* Unmarshal(Marshal(header)) gives the same key -> value-bytes map back, whatever entry order
+   Marshal picked, for distinct UTF-8 keys; the empty (or nil) map is the zero-length frame *)
+Theorem decode_header_enc h :
+  NoDup (map fst h) -> Forall (fun e => utf8_valid (fst e) = true) h ->
+  len_of (enc_header h) <= max_msg -> decode_header (enc_header h) = TOk h.
+Proof.
+  intros ND Hu Hl. pose proof max_lt_two64.
+  destruct (header_entries_ok h Hu ltac:(lia)) as [Hok Hwf].
+  unfold decode_header, parse_fields, enc_header. fold hentry_field.
+  rewrite dec_fields_enc by exact Hwf. cbn [tbind].
+  rewrite tfold_header; [reflexivity|exact Hok|exact ND].
+Qed.
+
+Theorem header_roundtrip h cs :
+  NoDup (map fst h) -> Forall (fun e => utf8_valid (fst e) = true) h ->
+  len_of (enc_header h) <= max_msg ->
+  exists f, write_header (Some (enc_header h)) = Ok f /\
+    (concat cs = f ->
+     map (fun fr => decode_header (read_header fr)) (out (feed_chunks cs)) = [TOk h] /\
+     dead (feed_chunks cs) = false /\ rbuf (feed_chunks cs) = []).
+Proof.
+  intros ND Hu Hl. exists (frame (enc_header h)). split; [reflexivity|]. intros E.
+  destruct (frames_roundtrip [enc_header h] cs) as (Ho & Hd & Hr).
+  { constructor; [exact Hl|constructor]. }
+  { rewrite E. unfold frames_of. cbn [map concat]. rewrite app_nil_r. reflexivity. }
+  rewrite Ho. cbn [map]. unfold read_header. rewrite decode_header_enc by assumption. auto.
+Qed.
+
+Example ex_header :
+  let h := [(x "6b", x "1a0476616c"); ([], x "0800"); (x "d0bad0bbd18ed187", [])] in
+  enc_header h = x "0a0a0a016b12051a0476616c0a060a001202" ++ x "08000a0c0a08d0bad0bbd18ed1871200" /\
+  decode_header (enc_header h) = TOk h /\
+  decode_header [] = TOk [] /\
+  (* a later entry with the same key replaces the earlier one; a key that is not UTF-8 is refused *)
+  decode_header (x "0a070a016b1202080a" ++ x "0a070a016b1202080b") = TOk [(x "6b", x "080b")] /\
+  decode_header (x "0a050a01ff1200") = TBad.
+Proof. vm_compute. repeat split. Qed.
+
+(* ---------------------------------------------------------------------------------------- *)
+(* two reader objects over one byte source                                                    *)
+Lemma firstn_len {A} (l : list A) k : length l = k -> firstn k l = l.
+Proof. intros <-. apply firstn_all. Qed.
+Lemma skipn_len {A} (l : list A) k : length l = k -> skipn k l = [].
+Proof. intros <-. apply skipn_all. Qed.
+Lemma firstn_len_app {A} (l t : list A) k : length l = k -> firstn k (l ++ t) = l.
+Proof. intros <-. apply firstn_app_exact. Qed.
+Lemma skipn_len_app {A} (l t : list A) k : length l = k -> skipn k (l ++ t) = t.
+Proof. intros <-. apply skipn_app_exact. Qed.
+
+Lemma want_grow k buf src : (length buf < k)%nat ->
+  want 0 k buf src = (buf ++ firstn (k - length buf) src, skipn (k - length buf) src).
+Proof.
+  intros H. unfold want. apply Nat.ltb_lt in H. rewrite H, Nat.add_0_r. reflexivity.
+Qed.
+
+Lemma pull_exact b rest : len_of b <= max_msg ->
+  pull 0 mr_init (frame b ++ rest) = (PFrame b, mr_init, rest).
+Proof.
+  intros Hb. unfold pull, frame. cbn [mstuck mbuf mr_init].
+  pose proof len_size_value as L4.
+  remember (be len_size (len_of b)) as hd eqn:Ehd.
+  assert (L : length hd = len_size) by (subst hd; apply be_length).
+  rewrite <- app_assoc.
+  rewrite want_grow by (cbn [length]; lia). cbn [length app]. rewrite Nat.sub_0_r.
+  rewrite firstn_len_app, skipn_len_app by exact L. lazy beta iota zeta.
+  rewrite L, Nat.ltb_irrefl. rewrite firstn_len by exact L.
+  assert (Eu : unbe hd = len_of b) by (subst hd; apply unbe_be; pose proof max_fits; lia).
+  rewrite Eu.
+  destruct (len_of b =? 0) eqn:E0.
+  - apply N.eqb_eq in E0. unfold len_of in E0. destruct b; [|cbn in E0; lia].
+    rewrite skipn_len by exact L. reflexivity.
+  - assert (E1 : (max_msg <? len_of b) = false) by (apply N.ltb_ge; exact Hb). rewrite E1.
+    apply N.eqb_neq in E0. unfold len_of in *. rewrite Nat2N.id.
+    rewrite want_grow by lia. rewrite L.
+    replace (len_size + length b - len_size)%nat with (length b) by lia.
+    rewrite firstn_app_exact, skipn_app_exact. lazy beta iota zeta.
+    assert (L2 : length (hd ++ b) = (len_size + length b)%nat) by (rewrite app_length, L; reflexivity).
+    rewrite L2, Nat.ltb_irrefl.
+    rewrite skipn_len_app by exact L. rewrite firstn_all. rewrite skipn_len by exact L2. reflexivity.
+Qed.
+
+Lemma pull_seq_frames bodies : forall which tail,
+  length which = length bodies -> Forall (fun b => len_of b <= max_msg) bodies ->
+  pull_seq 0 0 which mr_init mr_init (frames_of bodies ++ tail) =
+  (map PFrame bodies, (mr_init, mr_init, tail)).
+Proof.
+  induction bodies as [|b bs IH]; intros which tail Hl W.
+  - destruct which; [reflexivity|discriminate].
+  - destruct which as [|w which]; [discriminate|]. injection Hl as Hl.
+    inversion W as [|? ? Hb Wr]; subst.
+    unfold frames_of. cbn [map concat]. rewrite <- app_assoc. fold (frames_of bs).
+    destruct w; cbn [pull_seq]; rewrite pull_exact by exact Hb; rewrite IH by assumption; reflexivity.
+Qed.
+
+(* premise: neither reader object takes more bytes from the stream than the frame it returns *)
+Definition exact_reads (aheadA aheadB : nat) : Prop := aheadA = 0%nat /\ aheadB = 0%nat.
+
+(* C13 for the production arrangement: reads alternate arbitrarily between the reader of the
+   metadata stream and the reader of the data stream (in particular: header first, then
+   messages); every read returns the next written item, in order, and nothing is left in either
+   reader or in the stream *)
+Theorem two_readers_roundtrip aheadA aheadB its which :
+  exact_reads aheadA aheadB -> Forall item_ok its -> length which = length its ->
+  exists rs,
+    pull_seq aheadA aheadB which mr_init mr_init (stream_of its) = (rs, (mr_init, mr_init, [])) /\
+    Forall2 (fun it r => exists fr, r = PFrame fr /\ delivered it fr) its rs /\
+    rs = map PFrame (out (feed_all (stream_of its))).
+Proof.
+  intros [-> ->] W Hl.
+  assert (Wb : Forall (fun b => len_of b <= max_msg) (map item_body its)).
+  { apply Forall_forall. intros b Hin. apply in_map_iff in Hin. destruct Hin as (it & <- & Hin).
+    rewrite Forall_forall in W. apply W. exact Hin. }
+  exists (map PFrame (map item_body its)). split; [|split].
+  - unfold stream_of. rewrite <- (app_nil_r (frames_of (map item_body its))).
+    apply pull_seq_frames; [rewrite map_length; exact Hl|exact Wb].
+  - clear - W. induction W as [|it its Hit _ IH]; cbn [map]; constructor; [|exact IH].
+    exists (item_body it). split; [reflexivity|apply delivered_body; exact Hit].
+  - unfold stream_of. rewrite feed_all_frames by exact Wb. reflexivity.
+Qed.
+
+(* without the premise the statement is false: a reader that reads ahead (a buffered reader under
+   msgio) keeps the frame that follows the header when the two arrive together *)
+Lemma two_readers_readahead_refuted :
+  exists aheadA its,
+    Forall item_ok its /\
+    fst (pull_seq aheadA 0 [true; false] mr_init mr_init (stream_of its)) <> map (fun it => PFrame (item_body it)) its /\
+    fst (pull_seq aheadA 0 [true; false] mr_init mr_init (stream_of its)) = [PFrame (x "0a050a016b1200"); PEnd].
+Proof.
+  exists 4096%nat, [IHdr (x "0a050a016b1200"); IMsg (x "0a03616263")].
+  split; [repeat constructor; vm_compute; congruence|]. split; vm_compute; congruence.
+Qed.
+
+(* ---------------------------------------------------------------------------------------- *)
+(* the checker accepts the model: an honest session in which the implementation behaves as the
+   model says (every write puts frame(body) on the stream, every read returns the written item,
+   then end of stream) has no violation, for every chunk pattern and header oracle *)
+Section CheckerAcceptsModel.
+  Variable canon : bytes -> bytes.       (* the driver's canonical form of a header payload *)
+
+  Definition wop_of (it : item) : wop :=
+    match it with IMsg m => WMsg (Some m) | IErr s => WStatus s | IHdr h => WHdr (Some h) (canon h) None end.
+  Definition rop_of (it : item) : N := match it with IHdr _ => 1 | _ => 0 end.
+  Definition robs_of (it : item) : robs :=
+    match it with
+    | IMsg m => OData m
+    | IErr s => if (st_code s =? 0)%Z then OOkNoData else OStatus (st_code s) (st_msg s) (any_pairs s)
+    | IHdr h => OHeader (canon h)
+    end.
+  Definition wseen_of (it : item) : wobs := WOk (frame (item_body it)).
+
+  Lemma written_bytes_model its : written_bytes (map wseen_of its) = stream_of its.
+  Proof.
+    unfold stream_of, frames_of, written_bytes. induction its as [|it its IH]; [reflexivity|].
+    cbn [map flat_map concat wseen_of]. rewrite IH. reflexivity.
+  Qed.
+
+  Lemma list_eqb_pairs_refl l : list_eqb pair_eqb l l = true.
+  Proof.
+    induction l as [|[a b] l IH]; [reflexivity|]. cbn [list_eqb]. unfold pair_eqb at 1. cbn [fst snd].
+    rewrite !bytes_eqb_refl, IH. reflexivity.
+  Qed.
+
+  Lemma frame_clauses_model its : Forall item_ok its -> forall tl,
+    frame_clauses (map item_body its) (map rop_of its ++ [0]) (map robs_of its ++ tl) = [].
+  Proof.
+    induction 1 as [|it its Hit _ IH]; intros tl; [destruct tl; reflexivity|].
+    cbn [map app frame_clauses]. rewrite IH, app_nil_r.
+    pose proof (delivered_body it Hit) as Hd.
+    destruct it as [m|s|h]; unfold frame_clause; cbn [rop_of robs_of item_body delivered N.eqb] in *.
+    - rewrite Hd. reflexivity.
+    - rewrite Hd. destruct (st_code s =? 0)%Z; reflexivity.
+    - reflexivity.
+  Qed.
+
+  Lemma expect_session_model all its : Forall item_ok its ->
+    expect_session all (map wop_of its) (map wseen_of its) (map robs_of its ++ [OEOF]) = [].
+  Proof.
+    induction 1 as [|it its Hit _ IH]; [reflexivity|].
+    cbn [map app expect_session wseen_of].
+    assert (E : expect_item all (wop_of it) (robs_of it) = None).
+    { destruct it as [m|s|h]; cbn [wop_of robs_of expect_item status_of_wop].
+      - rewrite bytes_eqb_refl. reflexivity.
+      - destruct (st_code s =? 0)%Z eqn:E0; [reflexivity|].
+        unfold status_matches. rewrite Z.eqb_refl, bytes_eqb_refl, list_eqb_pairs_refl. reflexivity.
+      - rewrite bytes_eqb_refl. reflexivity. }
+    rewrite E. exact IH.
+  Qed.
+
+  Theorem checker_accepts_model its pat hdrs :
+    Forall item_ok its ->
+    violation (Session true (map wop_of its) (map wseen_of its) None pat
+                       (map rop_of its ++ [0]) (map robs_of its ++ [OEOF]) hdrs true) = [].
+  Proof.
+    intros W. cbn [violation session_stream]. rewrite written_bytes_model.
+    assert (Wb : Forall (fun b => len_of b <= max_msg) (map item_body its)).
+    { apply Forall_forall. intros b Hin. apply in_map_iff in Hin. destruct Hin as (it & <- & Hin).
+      rewrite Forall_forall in W. apply W. exact Hin. }
+    unfold stream_of. rewrite feed_all_frames by exact Wb. cbn [out].
+    rewrite frame_clauses_model by exact W. rewrite expect_session_model by exact W. reflexivity.
+  Qed.
+End CheckerAcceptsModel.
+
+(* an error member with code OK: ReadMsg returns nil and leaves the caller's message untouched *)
+Theorem ok_status_reads_as_nothing s :
+  st_code s = 0%Z -> status_marshal_ok s = true -> len_of (enc_streammsg (BError s)) <= max_msg ->
+  read_msg (enc_streammsg (BError s)) = ROkNoData.
+Proof.
+  intros H0 Hm Hl. rewrite read_msg_error; [rewrite H0; reflexivity| |exact Hm|exact Hl].
+  unfold int32_range. rewrite H0. lia.
+Qed.
